@@ -71,6 +71,8 @@ def field_constraints(rng, col, rex_pool=None):
                 b = rng.choice(_around(rng, ext))
                 if isinstance(b, float) and b != b:
                     b = 0.0
+                if isinstance(b, float) and b in (float('inf'), float('-inf')):
+                    b = 1e308 if b > 0 else -1e308      # keep cases JSON-replayable
                 p = rng.choice(PRECISIONS)
                 out[kind] = b if p is None else {'value': b, 'precision': p}
         if r() < 0.5:
